@@ -75,7 +75,7 @@ def common_items():
         Raw(open(os.path.join(os.path.dirname(os.path.dirname(os.path.abspath(__file__))), "prelude/traits.rs")).read().replace("//@@VNODE_IMPLS@@", vnode_impls([
             ("Expression", "NodeKey::Other(other_key(*self))", ""), ("BinOp", "NodeKey::Other(other_key(*self))", ""),
             ("UnOp", "NodeKey::Other(other_key(*self))", ""), ("TokenReference", "NodeKey::Other(other_key(*self))", ""),
-            ("Stmt", "NodeKey::Stmt(*self)", ""), ("LastStmt", "NodeKey::Last(*self)", ""),
+            ("Stmt", "NodeKey::Stmt(*self)", ""), ("LastStmt", "NodeKey::Last(*self)", ""), ("(Stmt, Option<TokenReference>)", "NodeKey::Pair(self.0, self.1)", ""),
         ]))),
         # lib.rs configuration types: real text
         Item("src/lib.rs", "enum", "LuaVersion"), Item("src/lib.rs", "enum", "IndentType"),
